@@ -2,6 +2,7 @@ use std::{
     future::{Future, poll_fn},
     io,
     pin::{Pin, pin},
+    sync::Arc,
     task::{Context, Poll},
 };
 
@@ -249,10 +250,14 @@ impl SendStream {
     pub fn stopped(
         &self,
     ) -> impl Future<Output = Result<Option<VarInt>, StoppedError>> + Send + Sync + 'static {
-        let conn = self.conn.clone();
-        let stream = self.stream;
+        let registration = StoppedRegistration {
+            conn: self.conn.clone(),
+            stream: self.stream,
+        };
         let is_0rtt = self.is_0rtt;
         async move {
+            let conn = &registration.conn;
+            let stream = registration.stream;
             loop {
                 // The `Notify::notified` future needs to be created while the lock is being held,
                 // otherwise a wakeup could be missed if triggered inbetween releasing the lock
@@ -293,6 +298,28 @@ impl SendStream {
         buf: &[u8],
     ) -> Poll<Result<usize, WriteError>> {
         pin!(self.get_mut().write(buf)).as_mut().poll(cx)
+    }
+}
+
+/// Removes the `stopped` notifier of a stream once the last future waiting on it is gone
+///
+/// Without this, a [`SendStream::stopped`] future that is dropped while pending would leave its
+/// notifier registered until the stream is finished or stopped, and for the whole life of the
+/// connection if the stream is reset instead.
+struct StoppedRegistration {
+    conn: ConnectionRef,
+    stream: StreamId,
+}
+
+impl Drop for StoppedRegistration {
+    fn drop(&mut self) {
+        let mut conn = self.conn.state.lock("SendStream::stopped::drop");
+        if let Some(notify) = conn.stopped.get(&self.stream) {
+            // Only the map itself still refers to the notifier: nobody is waiting anymore
+            if Arc::strong_count(notify) == 1 {
+                conn.stopped.remove(&self.stream);
+            }
+        }
     }
 }
 
